@@ -11,6 +11,10 @@ package order
 //@       forall j int :: 0 <= j && j < len(genState.OrderList) ==> has(Order, genState.OrderList[j].Id) && Order[genState.OrderList[j].Id] == genState.OrderList[j]
 //@   ensures [C18.init.order.shard] (forall a int, b int :: 0 <= a && a < b && b < len(genState.ShardList) ==> genState.ShardList[a].Id != genState.ShardList[b].Id) ==>
 //@       forall j int :: 0 <= j && j < len(genState.ShardList) ==> has(Shard, genState.ShardList[j].Id) && Shard[genState.ShardList[j].Id] == genState.ShardList[j]
+//@   ensures [C16.init.inv.order] (forall i int :: 0 <= i && i <= MaxUint64 ==> !old(has(Order, i))) && (forall j int :: 0 <= j && j < len(genState.OrderList) ==> genState.OrderList[j].Id < genState.OrderCount) ==>
+//@       forall i int :: 0 <= i && i <= MaxUint64 && has(Order, i) ==> i < effOrderCount(get(OrderCount))
+//@   ensures [C16.init.inv.shard] (forall i int :: 0 <= i && i <= MaxUint64 ==> !old(has(Shard, i))) && (forall j int :: 0 <= j && j < len(genState.ShardList) ==> genState.ShardList[j].Id < genState.ShardCount) ==>
+//@       forall i int :: 0 <= i && i <= MaxUint64 && has(Shard, i) ==> i < effShardCount(get(ShardCount))
 //@   ensures [C18.init.order.counts] effOrderCount(get(OrderCount)) == (genState.OrderCount == 0 ? 1 : genState.OrderCount) && effShardCount(get(ShardCount)) == genState.ShardCount
 //@   loop L1 invariant -1 <= rangeindex && rangeindex < len(genState0.OrderList)
 //@   loop L1 invariant (forall a int, b int :: 0 <= a && a < b && b < len(genState0.OrderList) ==> genState0.OrderList[a].Id != genState0.OrderList[b].Id) ==>
@@ -20,6 +24,8 @@ package order
 //@   loop L2 invariant (forall a int, b int :: 0 <= a && a < b && b < len(genState0.ShardList) ==> genState0.ShardList[a].Id != genState0.ShardList[b].Id) ==>
 //@       forall j int :: 0 <= j && j <= rangeindex ==> has(Shard, genState0.ShardList[j].Id) && Shard[genState0.ShardList[j].Id] == genState0.ShardList[j]
 //@   loop L2 decreases [C02.genesis.term] len(genState0.ShardList) - rangeindex
+//@   loop L1 invariant forall i int :: 0 <= i && i <= MaxUint64 && has(Order, i) ==> old(has(Order, i)) || (exists j int :: 0 <= j && j <= rangeindex && genState0.OrderList[j].Id == i)
+//@   loop L2 invariant forall i int :: 0 <= i && i <= MaxUint64 && has(Shard, i) ==> old(has(Shard, i)) || (exists j int :: 0 <= j && j <= rangeindex && genState0.ShardList[j].Id == i)
 //@   loop L2 invariant forall c int :: 0 <= c && c <= MaxUint64 ==> Order[c] == entry(Order[c]) && (has(Order, c) <==> entry(has(Order, c)))
 //@   loop L2 invariant get(OrderCount) == entry(get(OrderCount))
 
